@@ -135,7 +135,7 @@ theorem noRaw_op (c : Enc) (op : Op) (h : NoRawOp op) :
     · intro x n hx; exact hx
     · intro x r hx; exact hx
     · intro x v r n hx; exact hx
-    · simp only; split <;> exact ⟨rfl, rfl, rfl⟩
+    · split <;> exact ⟨rfl, rfl, rfl⟩
   | uint v ft =>
     have hft : ft = 256 := h
     subst hft
@@ -150,7 +150,7 @@ theorem noRaw_op (c : Enc) (op : Op) (h : NoRawOp op) :
     · intro x n hx; exact hx
     · intro x r hx; exact hx
     · intro x v r n hx; exact hx
-    · simp only; split <;> exact ⟨rfl, rfl, rfl⟩
+    · split <;> exact ⟨rfl, rfl, rfl⟩
   | _ => exact absurd h (by simp [NoRawOp])
 
 theorem noRaw_run (ops : List Op) : ∀ (c : Enc), (∀ op ∈ ops, NoRawOp op) →
